@@ -14,6 +14,7 @@
       in particular number and percentage settings never influence each other
     * `run_frame`                : rates, currencies, zone, unit families, bridges, languages and their rules are untouched
     * `run_same_last`            : two histories with the same last writes configure the number syntax identically
+    * `run_eq_of_same_last`      : … and leave the SAME configuration altogether: the configuration is a function of the last writes
   Tie: every `cfg` operation of the correspondence runs (C02 scanner tie in either order, C04 configuration-change histories,
   C05 / C07 / C08 / C12 conventions) reaches the model through these functions; the implementation is driven through its real setters.
 -/
@@ -135,5 +136,40 @@ theorem run_same_last (c : Cfg F) (ops ops' : List CfgOp)
 
 /-- non-vacuity: the history of seed C02-12 (thousands first, to the value the decimal separator has at that moment) -/
 example : ((run (F := Rat) {} [.thou ",", .dec "."]).dec, (run (F := Rat) {} [.thou ",", .dec "."]).thou) = (".", ",") := by decide
+
+theorem cfg_ext (a b : Cfg F) (h1 : a.dec = b.dec) (h2 : a.thou = b.thou) (h3 : a.numFmt = b.numFmt) (h4 : a.pctFmt = b.pctFmt)
+    (h5 : a.moneyRemoveZero = b.moneyRemoveZero) (h6 : a.moneyRounding = b.moneyRounding) (h7 : a.tz = b.tz)
+    (h8 : a.currencies = b.currencies) (h9 : a.currencyAlias = b.currencyAlias) (h10 : a.rates = b.rates) (h11 : a.zones = b.zones)
+    (h12 : a.units = b.units) (h13 : a.bridges = b.bridges) (h14 : a.langs = b.langs) : a = b := by
+  cases a; cases b; simp_all
+
+/-- THE CONFIGURATION IS A FUNCTION OF THE LAST WRITES: two histories of setter calls on the same calculator whose last call of
+    each kind wrote the same values leave the SAME configuration — hence every later evaluation is the same, whatever the order,
+    repetition or intermediate values of the calls were -/
+theorem run_eq_of_same_last (c : Cfg F) (ops ops' : List CfgOp)
+    (h1 : lastDec ops = lastDec ops') (h2 : lastThou ops = lastThou ops') (h3 : lastNum ops = lastNum ops')
+    (h4 : lastPct ops = lastPct ops') (h5 : lastMoney ops = lastMoney ops') : run c ops = run c ops' := by
+  obtain ⟨a1, a2, a3, a4, a5, a6, a7, a8⟩ := run_frame c ops
+  obtain ⟨b1, b2, b3, b4, b5, b6, b7, b8⟩ := run_frame c ops'
+  have hm := run_money c ops
+  have hm' := run_money c ops'
+  rw [h5] at hm
+  have hmm := hm.trans hm'.symm
+  simp only [Prod.mk.injEq] at hmm
+  apply cfg_ext
+  · rw [run_dec, run_dec, h1]
+  · rw [run_thou, run_thou, h2]
+  · rw [run_num, run_num, h3]
+  · rw [run_pct, run_pct, h4]
+  · exact hmm.1
+  · exact hmm.2
+  · rw [a4, b4]
+  · rw [a2, b2]
+  · rw [a3, b3]
+  · rw [a1, b1]
+  · rw [a5, b5]
+  · rw [a6, b6]
+  · rw [a7, b7]
+  · rw [a8, b8]
 
 end SCP.Setters
